@@ -351,7 +351,8 @@ package client
 //@ pred chanOK(c *Channel) = chanWF(c) && c.client != nil && c.client.log != nil && smWF(c.machine.StateMachine) && stateWF(chanState(c)) &&
 //@   chanState(c).Version < 18446744073709551615 && allocFor(mach(c), chanState(c)) && len(mach(c).params.Parts) == 2 &&
 //@   c.subChannelFundings != nil && c.subChannelWithdrawals != nil && c.machine.pr != nil && c.statesPub != nil &&
-//@   (c.parent != nil ==> chanWF(c.parent) && c.parent.subChannelWithdrawals != nil && c.parent.subChannelFundings != nil)
+//@   (c.parent != nil ==> chanWF(c.parent) && c.parent.subChannelWithdrawals != nil && c.parent.subChannelFundings != nil) &&
+//@   mach(c).params.Nonce != nil && txCloneable(mach(c).stagingTX) && txCloneable(mach(c).currentTX)
 
 // peerSigOK: the signature verifies for the state against every address of participant idx.
 //@ pred peerSigOK(m *channel.machine, idx channel.Index, s *channel.State, sig wallet.Sig) =
